@@ -423,10 +423,10 @@ def run_part_b(ctx, consts):
         sstep = rng.choice([0, 1, 3, 17, 100])
         nt = rng.choice([0, 1, 3, 8, 20, 40])
         shift = rng.choice([-9, -1, 1, 2, 7, P // 2, P])
-        scs.append('sc %d %d %d %d %d %d %d %d %d %d %d' % (ws, idf, cl, ba, nn, ns, sl, sstep, sv, nt, shift))
+        scs.append('sc %d %d %d %d %d %d %d %d %d %d %d %d' % (ws, idf, cl, ba, nn, ns, sl, sstep, sv, nt, shift, rng.choice([0, 0, 1, 2, 3])))
     # residues: total size walked across the first page boundaries in steps of one byte
     for d in range(-6, 7) if not ctx.thorough else range(-40, 41):
-        scs.append('sc 0 0 1 0 0 0 0 0 %d 0 1' % max(0, P // 2 - 60 + d))
+        scs.append('sc 0 0 1 0 0 0 0 0 %d 0 1 %d' % (max(0, P // 2 - 60 + d), d % 4))
         scs.append('sc 0 1 1 0 1 1 %d 0 %d 2 -1' % (max(0, P // 2 - 100 + d), 8))
     res = lib.run_harness_resilient(builds['san'], scs)
     traces = []
@@ -437,16 +437,28 @@ def run_part_b(ctx, consts):
             m = re.search(r'SUMMARY: \w+: (\S+) \S+ in (\w+)', r) or re.search(r'ERROR: \w+: (\S+) .*? in (\w+) /', r)
             key = 'crash:builder-scenario' + (':%s:%s' % (m.group(1), m.group(2)) if m else '')
             ctx.violation(key, 'sanitizer report / crash in builder scenario `%s`: %s' % (l, r[:300]), replay); continue
-        rounds = [x.strip() for x in r.split(' | ')]
-        for rec, de in zip(rounds[0::2], rounds[1::2]):
+        segs = [x.strip() for x in r.split(' | ')]
+        recs = [x for x in segs if x[1:5] == ':rec']; defs = [x for x in segs if x[1:5] == ':def']
+        for x in segs:
+            if x.startswith('reset=') and x != 'reset=0,0':
+                ctx.violation('builder-reset-failed', 'builder scenario `%s`: reset of the default / recording builder returned %s' % (l, x[6:]), replay)
+        sums = {}
+        for rec, de in zip(recs, defs):
             tag = rec.split(':', 1)[0]
-            rd = dict(kv.split('=', 1) for kv in rec.split(' ')[1:])
-            dd = dict(kv.split('=', 1) for kv in de.split(' ')[1:])
+            rd = dict(kv.split('=', 1) for kv in rec.split()[1:])
+            dd = dict(kv.split('=', 1) for kv in de.split()[1:])
+            sums[tag] = rd.get('sum')
+            if tag != 'A' and rd['shape'].startswith('call0:') and rd['rc'] == '0':
+                ctx.violation('reset-does-not-rewind-range', 'builder scenario `%s` round %s (reused builder with a custom emitter after reset): the first emit call does not start from '
+                              'origin 0: %s (builder reports start=%s end=%s size=%s)' % (l, tag, rd['shape'], rd['bstart'], rd['bend'], rd['bsize']), replay); break
             if rd['rc'] != '0' or dd['rc'] != '0':
                 ctx.violation('scenario-build-failed', 'builder scenario `%s` round %s failed to build (rc %s / %s)' % (l, tag, rd['rc'], dd['rc']), replay); break
             if 'trace' in rd and rd['trace'] != '-' and len(traces) < (40 if ctx.thorough else 12): traces.append(rd['trace'])
             if rd['shape'] != 'ok':
                 ctx.violation('emit-stream-shape', 'builder scenario `%s` round %s: emit call violates the stream shape: %s' % (l, tag, rd['shape']), replay); break
+            if rd['bstart'] != rd['start'] or rd['bend'] != rd['end']:
+                ctx.violation('buffer-range', 'builder scenario `%s` round %s: flatcc_builder_get_buffer_start/end = %s/%s but the emit calls cover %s..%s'
+                              % (l, tag, rd['bstart'], rd['bend'], rd['start'], rd['end']), replay); break
             if not (rd['rsize'] == rd['bsize'] == dd['size']) or int(rd['end']) - int(rd['start']) != int(rd['rsize']):
                 ctx.violation('buffer-size', 'builder scenario `%s` round %s: recorded stream %s bytes, builder reports %s / %s' % (l, tag, rd['rsize'], rd['bsize'], dd['size']), replay); break
             if dd['direct'] == 'ne' or (dd['direct'] == 'eq' and dd['dsize'] != rd['rsize']):
@@ -461,7 +473,32 @@ def run_part_b(ctx, consts):
             if dd['afin'] != 'eq' or dd['asize'] != rd['rsize'] or dd['aal'] != 'ok':
                 ctx.violation('finalize-aligned-buffer-bytes', 'builder scenario `%s` round %s: flatcc_builder_finalize_aligned_buffer %s (size %s, stream %s, alignment %s)'
                               % (l, tag, dd['afin'], dd['asize'], rd['rsize'], dd['aal']), replay); break
+        else:
+            if sums.get('A') is not None and sums.get('C') is not None and sums['A'] != sums['C']:
+                ctx.violation('reuse-stream-differs', 'builder scenario `%s`: the reused builder (round C) emits a different stream than the first build of the same calls (round A)' % l, replay)
     ctx.sample({'builder_scenario': scs[0], 'result': res[0][:500]})
+
+    # ---- reset rewinds the address range, for custom and default emitters and every reset variant (model: bst_reset)
+    rcases = []
+    for custom in (1, 0):
+        for variant in (0, 1, 2, 3):
+            for st, en in [(0, 0), (-4, 0), (-544, 64), (-26464, 0), (0, 4096), (INT_MIN, INT_MAX), (-rng.randint(1, 2 ** 30), rng.randint(0, 2 ** 30))]:
+                rcases.append((custom, variant, st, en))
+    rl = ['rs %d %d %d %d' % c for c in rcases]
+    rres = lib.run_harness_resilient(builds['san'], rl)
+    mres = ctx.run_model('emitter', ['rs %d %d' % (c[2], c[3]) for c in rcases])
+    for c, l, r, m in zip(rcases, rl, rres, mres):
+        ctx.count(l, klass='reset_range')
+        replay = {'harness': 'emit_record', 'build': 'san', 'harness_line': l, 'impl': r, 'model': m}
+        if r.startswith('CRASH') or r == 'BAD':
+            ctx.violation('crash:builder-reset', 'emit_record crashed on `%s`: %s' % (l, r[:200]), replay); continue
+        d = dict(kv.split('=', 1) for kv in r.split())
+        if d['rc'] != '0' or d['start'] != '0' or d['end'] != '0' or d['size'] != '0':
+            ctx.violation('reset-does-not-rewind-range', '%s on a builder with %s emitter and emit_start=%d emit_end=%d leaves start=%s end=%s size=%s (rc %s): the next build does not start from zero'
+                          % (['flatcc_builder_reset', 'flatcc_builder_custom_reset(1,0)', 'flatcc_builder_custom_reset(0,1)', 'flatcc_builder_custom_reset(1,1)'][c[1]],
+                             'a custom' if c[0] else 'the default', c[2], c[3], d['start'], d['end'], d['size'], d['rc']), replay)
+        elif 'start=%s end=%s' % (d['start'], d['end']) != m:
+            ctx.violation('corr:builder-reset', 'model and implementation disagree on `%s`: impl %s, model %s' % (l, r, m), replay)
     return traces
 
 
